@@ -1,1 +1,290 @@
 //! Verification facade (cfg-gated): shwap family.  See `crate::verif`.
+//!
+//! Thin public wrappers over the crate-private shrex codec, the shrex pool tracker and
+//! the bitswap `ShwapMultihasher`.  No logic of its own.
+
+use std::future::poll_fn;
+use std::sync::Arc;
+use std::task::{Context, Poll};
+
+use celestia_types::eds::{EdsId, ExtendedDataSquare};
+use celestia_types::hash::Hash;
+use celestia_types::namespace_data::{NamespaceData, NamespaceDataId};
+use celestia_types::row::{Row, RowId};
+use celestia_types::sample::{Sample, SampleId};
+use celestia_types::{AppVersion, DataAvailabilityHeader};
+use cid::Cid;
+use libp2p::identity::Keypair;
+
+pub use libp2p::PeerId;
+
+use crate::p2p::verif_shrex as shim;
+use crate::p2p::verif_shrex::{RequestCodec, ResponseCodec};
+use crate::store::Store;
+
+// ---------------------------------------------------------------------------------------
+// shrex codec
+
+/// Public mirror of the shrex `CodecError`.
+#[derive(Debug, Clone, PartialEq, Eq)]
+pub enum VCodecError {
+    RequestDecode(String),
+    ResponseDecode(String),
+    ResponseVerification(String),
+}
+
+impl From<shim::CodecError> for VCodecError {
+    fn from(e: shim::CodecError) -> Self {
+        match e {
+            shim::CodecError::RequestDecode(s) => VCodecError::RequestDecode(s),
+            shim::CodecError::ResponseDecode(s) => VCodecError::ResponseDecode(s),
+            shim::CodecError::ResponseVerification(s) => VCodecError::ResponseVerification(s),
+        }
+    }
+}
+
+/// `<ExtendedDataSquare as ResponseCodec>::decode_and_verify` (the request id is unused by
+/// the decoder; the id of `height` is passed).
+pub fn shrex_decode_eds(
+    raw: &[u8],
+    height: u64,
+    dah: &DataAvailabilityHeader,
+    app_version: AppVersion,
+) -> Result<ExtendedDataSquare, VCodecError> {
+    let req = EdsId::new(height).map_err(|e| VCodecError::RequestDecode(e.to_string()))?;
+    <ExtendedDataSquare as ResponseCodec>::decode_and_verify(raw, &req, dah, app_version)
+        .map_err(Into::into)
+}
+
+/// `<ExtendedDataSquare as ResponseCodec>::encode`.
+pub fn shrex_encode_eds(eds: &ExtendedDataSquare) -> Vec<u8> {
+    ResponseCodec::encode(eds)
+}
+
+/// `<Sample as ResponseCodec>::decode_and_verify`.
+pub fn shrex_decode_sample(
+    raw: &[u8],
+    id: &SampleId,
+    dah: &DataAvailabilityHeader,
+    app_version: AppVersion,
+) -> Result<Sample, VCodecError> {
+    <Sample as ResponseCodec>::decode_and_verify(raw, id, dah, app_version).map_err(Into::into)
+}
+
+/// `<Sample as ResponseCodec>::encode`.
+pub fn shrex_encode_sample(sample: &Sample) -> Vec<u8> {
+    ResponseCodec::encode(sample)
+}
+
+/// `<Row as ResponseCodec>::decode_and_verify`.
+pub fn shrex_decode_row(
+    raw: &[u8],
+    id: &RowId,
+    dah: &DataAvailabilityHeader,
+    app_version: AppVersion,
+) -> Result<Row, VCodecError> {
+    <Row as ResponseCodec>::decode_and_verify(raw, id, dah, app_version).map_err(Into::into)
+}
+
+/// `<Row as ResponseCodec>::encode`.
+pub fn shrex_encode_row(row: &Row) -> Vec<u8> {
+    ResponseCodec::encode(row)
+}
+
+/// `<NamespaceData as ResponseCodec>::decode_and_verify`.
+pub fn shrex_decode_namespace_data(
+    raw: &[u8],
+    id: &NamespaceDataId,
+    dah: &DataAvailabilityHeader,
+    app_version: AppVersion,
+) -> Result<NamespaceData, VCodecError> {
+    <NamespaceData as ResponseCodec>::decode_and_verify(raw, id, dah, app_version)
+        .map_err(Into::into)
+}
+
+/// `<NamespaceData as ResponseCodec>::encode`.
+pub fn shrex_encode_namespace_data(data: &NamespaceData) -> Vec<u8> {
+    ResponseCodec::encode(data)
+}
+
+/// `RequestCodec::encode` of the four request ids.
+pub fn shrex_encode_eds_request(id: &EdsId) -> Vec<u8> {
+    RequestCodec::encode(id)
+}
+pub fn shrex_encode_row_request(id: &RowId) -> Vec<u8> {
+    RequestCodec::encode(id)
+}
+pub fn shrex_encode_sample_request(id: &SampleId) -> Vec<u8> {
+    RequestCodec::encode(id)
+}
+pub fn shrex_encode_namespace_data_request(id: &NamespaceDataId) -> Vec<u8> {
+    RequestCodec::encode(id)
+}
+
+/// `RequestCodec::decode` of the four request ids.
+pub fn shrex_decode_eds_request(raw: &[u8]) -> Result<EdsId, VCodecError> {
+    <EdsId as RequestCodec>::decode(raw).map_err(Into::into)
+}
+pub fn shrex_decode_row_request(raw: &[u8]) -> Result<RowId, VCodecError> {
+    <RowId as RequestCodec>::decode(raw).map_err(Into::into)
+}
+pub fn shrex_decode_sample_request(raw: &[u8]) -> Result<SampleId, VCodecError> {
+    <SampleId as RequestCodec>::decode(raw).map_err(Into::into)
+}
+pub fn shrex_decode_namespace_data_request(raw: &[u8]) -> Result<NamespaceDataId, VCodecError> {
+    <NamespaceDataId as RequestCodec>::decode(raw).map_err(Into::into)
+}
+
+// ---------------------------------------------------------------------------------------
+// shrex-sub notifications
+
+/// `EdsNotification::deserialize_and_validate`: `(height, data_hash)` or the `Debug`
+/// rendering of the `NotifcationValidationError`.
+pub fn parse_eds_notification(data: &[u8]) -> Result<(u64, Hash), String> {
+    shim::parse_eds_notification(data)
+}
+
+/// The data hash of the empty square as the shrex module computes it.
+pub fn empty_eds_data_hash() -> Hash {
+    shim::empty_eds_data_hash()
+}
+
+// ---------------------------------------------------------------------------------------
+// bitswap multihasher
+
+/// `ShwapMultihasher::new(store).hash(code, input)`: the bytes of the resulting multihash
+/// (`Multihash::to_bytes`), or the `Debug` rendering of the `MultihasherError`
+/// (`"UnknownMultihashCode"`, `"CustomFatal(..)"`, ...).
+pub async fn shwap_multihash<S>(store: Arc<S>, code: u64, input: &[u8]) -> Result<Vec<u8>, String>
+where
+    S: Store + 'static,
+{
+    crate::p2p::shwap::verif_multihash(store, code, input)
+        .await
+        .map(|mh| mh.to_bytes())
+        .map_err(|e| format!("{e:?}"))
+}
+
+/// `get_block_container(expected_cid, block)`; `expected_cid` in its binary form.
+pub fn get_block_container(expected_cid: &[u8], block: &[u8]) -> Result<Vec<u8>, String> {
+    let cid = Cid::read_bytes(expected_cid).map_err(|e| format!("harness cid: {e}"))?;
+    crate::p2p::shwap::get_block_container(&cid, block).map_err(|e| format!("{e:?}"))
+}
+
+// ---------------------------------------------------------------------------------------
+// pool tracker
+
+/// Public mirror of the shrex `Event`s the pool tracker emits.
+#[derive(Debug, Clone, PartialEq, Eq)]
+pub enum VPoolEvent {
+    AddPeers(Vec<PeerId>),
+    BlockPeers(Vec<PeerId>),
+    /// Never produced by the pool tracker; kept so that the mirror is total.
+    SchedulePendingRequests,
+}
+
+impl From<shim::Event> for VPoolEvent {
+    fn from(ev: shim::Event) -> Self {
+        match ev {
+            shim::Event::AddPeers(p) => VPoolEvent::AddPeers(p),
+            shim::Event::BlockPeers(p) => VPoolEvent::BlockPeers(p),
+            shim::Event::SchedulePendingRequests => VPoolEvent::SchedulePendingRequests,
+        }
+    }
+}
+
+/// Public mirror of `GetPoolError`.
+#[derive(Debug, Clone, Copy, PartialEq, Eq)]
+pub enum VGetPoolError {
+    CandidatesNotValidated,
+    HeightTooOld,
+    HeightNotTracked,
+}
+
+/// Outcome of one `PoolTracker::poll` call.
+#[derive(Debug, Clone, PartialEq, Eq)]
+pub enum VPoolPoll {
+    /// `Poll::Pending`
+    Pending,
+    /// `Poll::Ready(None)`: a header task was processed
+    Progress,
+    /// `Poll::Ready(Some(event))`
+    Event(VPoolEvent),
+}
+
+/// The real `PoolTracker<S>`.
+pub struct VPool<S: Store + 'static>(shim::PoolTracker<S>);
+
+impl<S: Store + 'static> VPool<S> {
+    /// `PoolTracker::new`.
+    pub fn new(store: Arc<S>) -> Self {
+        VPool(shim::PoolTracker::new(store))
+    }
+
+    /// `PoolTracker::add_peer_for_hash`.
+    pub fn add_peer_for_hash(&mut self, peer: PeerId, data_hash: Hash, height: u64) {
+        self.0.add_peer_for_hash(peer, data_hash, height)
+    }
+
+    /// `PoolTracker::remove_peer`.
+    pub fn remove_peer(&mut self, peer: &PeerId) {
+        self.0.remove_peer(peer)
+    }
+
+    /// `PoolTracker::get_pool`, collected.
+    pub fn get_pool(&self, height: u64) -> Result<Vec<PeerId>, VGetPoolError> {
+        match self.0.get_pool(height) {
+            Ok(peers) => Ok(peers.copied().collect()),
+            Err(shim::GetPoolError::CandidatesNotValidated) => {
+                Err(VGetPoolError::CandidatesNotValidated)
+            }
+            Err(shim::GetPoolError::HeightTooOld) => Err(VGetPoolError::HeightTooOld),
+            Err(shim::GetPoolError::HeightNotTracked) => Err(VGetPoolError::HeightNotTracked),
+        }
+    }
+
+    /// `PoolTracker::poll` with the caller's context.
+    pub fn poll(&mut self, cx: &mut Context<'_>) -> Poll<Option<VPoolEvent>> {
+        shim::pool_tracker_poll(&mut self.0, cx).map(|ev| ev.map(Into::into))
+    }
+
+    /// One `PoolTracker::poll` call made from the current task; never waits.
+    pub async fn poll_once(&mut self) -> VPoolPoll {
+        let mut out = None;
+        poll_fn(|cx| {
+            out = Some(match shim::pool_tracker_poll(&mut self.0, cx) {
+                Poll::Pending => VPoolPoll::Pending,
+                Poll::Ready(None) => VPoolPoll::Progress,
+                Poll::Ready(Some(ev)) => VPoolPoll::Event(ev.into()),
+            });
+            Poll::Ready(())
+        })
+        .await;
+        out.expect("polled")
+    }
+
+    /// Calls `PoolTracker::poll` until it returns `Pending`; returns every outcome before
+    /// that, in order (same loop as the `poll_until_pending` helper of the unit tests).
+    pub async fn poll_all(&mut self) -> Vec<VPoolPoll> {
+        let mut out = vec![];
+        loop {
+            match self.poll_once().await {
+                VPoolPoll::Pending => return out,
+                other => out.push(other),
+            }
+        }
+    }
+
+    /// Canonical rendering of the tracker's private state (`verif_snapshot`).
+    pub fn snapshot(&self) -> String {
+        self.0.verif_snapshot()
+    }
+}
+
+/// Deterministic peer id number `i` (ed25519 key from the secret `[i + 1; 32]`).
+pub fn peer_id(i: u8) -> PeerId {
+    Keypair::ed25519_from_bytes([i.wrapping_add(1); 32])
+        .expect("valid secret")
+        .public()
+        .to_peer_id()
+}
